@@ -60,6 +60,9 @@ def gen(rng, tier):
         'bystander': rng.random() < 0.25,
         # the application's disconnect handler sends a last message
         'disc_handler_emits': rng.random() < 0.3,
+        # while connected the application calls connect() again, with other
+        # arguments, and is told 'Already connected'
+        'second_connect': rng.random() < 0.25,
     }
     pattern = [rng.choice(['refuse', 'refuse', 'ns_refuse', 'accept'])
                for _ in range(rng.randrange(0, 8))] + ['accept']
@@ -244,6 +247,20 @@ def _run(case, cfg, w):
         return {'harness': 'initial connect failed: %r' % (h.exc,)}
     n_initial_attempts = len(w.net.attempts)
     first_info = w.net.attempts[0]['info']
+    if cfg.get('second_connect'):
+        # (through the base class: not one of the attempts the oracle counts)
+        Base = socketio.AsyncClient if w.mode == 'async' else socketio.Client
+        h2 = w.call(Base.connect, c, 'http://elsewhere?y=2',
+                    headers={'X-Other': '1'}, auth={'token': 'other'},
+                    transports=['polling'], namespaces=['/zz'],
+                    wait_timeout=1, _label=('second-connect',))
+        w.settle()
+        rec.count('fault.refused_second_connect')
+        if h2.exc is None or 'Already connected' not in str(h2.exc):
+            v.add('second_connect_not_refused', repr(h2.exc))
+        if len(w.net.attempts) != n_initial_attempts:
+            v.add('second_connect_made_an_attempt', '%d transport attempts'
+                  % (len(w.net.attempts) - n_initial_attempts))
 
     # ---- the bystander client
     by = None
